@@ -14,8 +14,8 @@ import (
 
 func init() {
 	fw.Register(&fw.Check{
-		ID: "C12",
-		Rule: "cases: (a) every step of the C01 histories (systematic position x failure-class plans and random plans): the previous resolution model (all fields, document to any depth, operation lists) and the anchored operation (incl. request bytes) are deep-copied before Apply and compared with reflect.DeepEqual afterwards, whether the call succeeds, degrades or fails; (state,err) are never both set; (b) patch lists over all eight actions on deeply nested documents, incl. lists built to fail at the k-th patch for k=1..6: document and patch values compared before/after by canonical JSON and reflect.DeepEqual, a failing list must return (nil, err). distinct = (outcome sequence) for histories and (action sequence, failing position) for lists.",
+		ID:          "C12",
+		Rule:        "cases: (a) every step of the C01 histories (systematic position x failure-class plans and random plans): the previous resolution model (all fields, document to any depth, operation lists) and the anchored operation (incl. request bytes) are deep-copied before Apply and compared with reflect.DeepEqual afterwards, whether the call succeeds, degrades or fails; (state,err) are never both set; (b) patch lists over all eight actions on deeply nested documents, incl. lists built to fail at the k-th patch for k=1..6: document and patch values compared before/after by canonical JSON and reflect.DeepEqual, a failing list must return (nil, err). distinct = (outcome sequence) for histories and (action sequence, failing position) for lists.",
 		Assumptions: []string{"reflect.DeepEqual over a structural deep copy is the observable for 'modified'"},
 		Require:     []string{"steps", "lists", "failing-lists", "outcome:applied", "outcome:refused:parse"},
 		Workers:     func(string) int { return 15 },
